@@ -49,6 +49,7 @@ fn main() {
         None => Box::new(std::io::BufWriter::new(std::io::stdout())),
     };
     let mut events = 0u64;
+    let mut scen_extra = 0u64;
     for s in seed..seed + n {
         let rt = runtime();
         trace_begin();
@@ -62,6 +63,7 @@ fn main() {
                     defer: get("defer", 1),
                     one_way: get("one_way", 0) != 0,
                     max_len_factor: get("len_factor", 3),
+                    backpressure: get("bp", 0) != 0,
                 };
                 rt.block_on(chmux_data::scenario(s, &opts));
             }
@@ -73,8 +75,79 @@ fn main() {
                     data: get("data", 1) != 0,
                     max_ports: get("max_ports", 4),
                     calm: get("calm", 0) != 0,
+                    ldrop: get("ldrop", 0) != 0,
+                    ..Default::default()
                 };
                 rt.block_on(chmux_life::scenario(s, &opts));
+            }
+            "fault" => {
+                // fault enumeration: one fault-free run to learn the frame counts, then one run per
+                // (kind, direction, frame number) with stride
+                let base = chmux_life::LifeOpts {
+                    connects: get("connects", 3),
+                    cancel: false,
+                    defer: get("defer", 1),
+                    data: true,
+                    max_ports: 4,
+                    calm: true,
+                    timeout_ms: get("timeout_ms", 2000),
+                    ..Default::default()
+                };
+                let (fa, fb) = rt.block_on(chmux_life::scenario(s, &base));
+                let stride = get("stride", 7).max(1);
+                let kinds: [&'static str; 5] = ["sink_err", "stream_err", "stream_end", "stall", "stall_both"];
+                let mut k = (s % stride) + 1;
+                for dir in 1..=2u64 {
+                    let total = if dir == 1 { fa } else { fb };
+                    while k <= total {
+                        for kind in kinds {
+                            uninstall_hooks();
+                            let lines = trace_end();
+                            events += lines.len() as u64;
+                            for l in lines {
+                                writeln!(w, "{l}").unwrap();
+                            }
+                            let rt2 = runtime();
+                            trace_begin();
+                            install_hook_sink();
+                            let o = chmux_life::LifeOpts { fault_kind: kind, fault_dir: dir, fault_at: k, ..base.clone() };
+                            rt2.block_on(chmux_life::scenario(s, &o));
+                            scen_extra += 1;
+                        }
+                        k += stride;
+                    }
+                    k = (s % stride) + 1;
+                }
+            }
+            "block" => {
+                rt.block_on(chmux_block::scenario(s));
+            }
+            "idle" => {
+                rt.block_on(chmux_misc::idle(s, get("periods", 1000)));
+            }
+            "hs_fault" => {
+                let kinds: [&'static str; 5] = ["sink_err", "stream_err", "stream_end", "stall", "stall_both"];
+                let mut first = true;
+                for kind in kinds {
+                    for dir in 1..=2u64 {
+                        for at in 1..=2u64 {
+                            if !first {
+                                uninstall_hooks();
+                                let lines = trace_end();
+                                events += lines.len() as u64;
+                                for l in lines {
+                                    writeln!(w, "{l}").unwrap();
+                                }
+                                trace_begin();
+                                install_hook_sink();
+                                scen_extra += 1;
+                            }
+                            first = false;
+                            let rt2 = runtime();
+                            rt2.block_on(chmux_misc::hs_fault(s, kind, dir, at));
+                        }
+                    }
+                }
             }
             other => {
                 eprintln!("unknown workload {other}");
@@ -90,5 +163,5 @@ fn main() {
         }
     }
     w.flush().unwrap();
-    eprintln!("drive {wl}: scenarios={n} events={events} panics={}", panic_count());
+    eprintln!("drive {wl}: scenarios={} events={events} panics={}", n + scen_extra, panic_count());
 }
